@@ -57,7 +57,7 @@ func (c *Min) Exclusive() bool {
 }
 
 func (c Min) Validate(value bytes.Bytes) {
-	jsonNumber, err := json.NewNumber(value)
+	jsonNumber, err := json.ParseNumber(value)
 	if err != nil {
 		panic(err)
 	}
